@@ -280,7 +280,7 @@ pub struct Ctl {
     cur: Option<u8>,
     cur_opaque: bool,
     params: Vec<u8>,
-    cur_pixels: u64,
+    pub cur_pixels: u64,
     acc: [u16; 3],
     acc_n: u8,
     cur_t: u64,
